@@ -80,6 +80,88 @@ class SubDeque(collections.deque):
     pass
 
 
+# round s5: picklable, unhashable objects whose STATE IS NOT (ONLY) THEIR INSTANCE __dict__ — what a key built from `vars(obj)` /
+# `obj.__dict__` cannot see, what the pickle does.  Every instance has a hidden part `hid` and a visible part `vis` (lists of values):
+#   SlotDictObj  hid in an inherited slot, vis in __dict__ (a class without __slots__ deriving from a slotted one — the shape of a
+#                dataclass deriving from a slots=True dataclass);
+#   SlotOnlyObj  both in slots, no __dict__ at all;
+#   ArgsObj      hid in the C-level `args` of an exception (custom __reduce__), vis in __dict__;
+#   StateObj     hid under a name-mangled slot handed over by __getstate__ / __setstate__, vis in __dict__.
+class _Parts:
+    __slots__ = ()
+    __hash__ = None  # type: ignore[assignment]
+
+    def parts(self):
+        return list(self.hid), list(self.vis)
+
+    def __eq__(self, other):
+        return type(other) is type(self) and self.parts() == other.parts()
+
+    def __repr__(self):
+        h, v = self.parts()
+        return f"{type(self).__name__}(hid={h!r}, vis={v!r})"
+
+
+class _SlotBase(_Parts):
+    __slots__ = ("hid",)
+
+
+class SlotDictObj(_SlotBase):
+    def __init__(self, hid, vis):
+        self.hid = list(hid)
+        self.vis = list(vis)
+
+
+class SlotOnlyObj(_Parts):
+    __slots__ = ("hid", "vis")
+
+    def __init__(self, hid, vis):
+        self.hid = list(hid)
+        self.vis = list(vis)
+
+
+class ArgsObj(Exception):
+    __hash__ = None  # type: ignore[assignment]
+
+    def __init__(self, hid, vis):
+        super().__init__(*hid)
+        self.vis = list(vis)
+
+    def parts(self):
+        return list(self.args), list(self.vis)
+
+    def __reduce__(self):
+        return (type(self), (list(self.args), self.vis))
+
+    __eq__ = _Parts.__eq__
+    __repr__ = _Parts.__repr__
+
+
+class _StateBase(_Parts):
+    __slots__ = ("__h",)
+
+
+class StateObj(_StateBase):
+    def __init__(self, hid, vis):
+        self._StateBase__h = list(hid)
+        self.vis = list(vis)
+
+    @property
+    def hid(self):
+        return self._StateBase__h
+
+    def __getstate__(self):
+        return {"h": self._StateBase__h, "v": self.vis}
+
+    def __setstate__(self, st):
+        self._StateBase__h = st["h"]
+        self.vis = st["v"]
+
+
+FOBJ = {"SlotDictObj": SlotDictObj, "SlotOnlyObj": SlotOnlyObj, "ArgsObj": ArgsObj, "StateObj": StateObj}
+FOBJ_CLASSES = tuple(FOBJ.values())
+
+
 class Unpicklable:
     __hash__ = None  # type: ignore[assignment]
 
@@ -102,7 +184,8 @@ CLASSES = {
     "nonetype": type(None),
 }
 OTHER_CLASSES = [Obj, Obj2, SubList, SubDict, Unpicklable, type, object, complex,
-                 SubList2, SubTuple, NT1, NT2, NT2b, NT3, SubFset, SubSet, SubODict, SubDeque]      # (append only: specs name classes by position)
+                 SubList2, SubTuple, NT1, NT2, NT2b, NT3, SubFset, SubSet, SubODict, SubDeque,
+                 SlotDictObj, SlotOnlyObj, ArgsObj, StateObj]      # (append only: specs name classes by position)
 # user subclass -> the builtin class whose behaviour it inherits unchanged
 SUB_BASE = {SubList: list, SubList2: list, SubTuple: tuple, NT1: tuple, NT2: tuple, NT2b: tuple, NT3: tuple, SubFset: frozenset,
             SubSet: set, SubDict: dict, SubODict: collections.OrderedDict, SubDeque: collections.deque}
@@ -320,6 +403,8 @@ class Builder:
             return df
         if t == "obj":
             return (Obj2 if s[1] else Obj)(*[self.b(x) for x in s[2]])
+        if t == "fobj":                 # ["fobj", class name, [hidden part specs], [visible part specs]]
+            return FOBJ[s[1]]([self.b(x) for x in s[2]], [self.b(x) for x in s[3]])
         if t == "unpicklable":
             return Unpicklable()
         raise ValueError(f"bad spec {s!r}")
@@ -428,7 +513,7 @@ class Encoder:
                 raise OutOfModel("dtype")
             return {"k": "ndarray", "shape": list(x.shape), "dtype": [ord(c) for c in x.dtype.str],
                     "x": [self.atom(y, fresh_nan=True) for y in x.flatten()]}
-        if t in (Obj, Obj2):
+        if t in (Obj, Obj2) or t in FOBJ_CLASSES:
             import cloudpickle
             d = hashlib.md5(cloudpickle.dumps(x)).hexdigest()  # noqa: S324
             return {"k": "opaque", "cls": other_index(t), "d": [ord(c) for c in d], "x": []}
@@ -587,6 +672,8 @@ def py_same(a, b) -> bool:  # noqa: C901, PLR0911, PLR0912
         return bool(np.array_equal(a, b, equal_nan=True)) if NAN_EQUAL and a.dtype.kind == "f" else bool((a == b).all())
     if isinstance(a, Obj):
         return len(a.attrs) == len(b.attrs) and all(py_same(x, y) for x, y in zip(a.attrs, b.attrs))
+    if isinstance(a, FOBJ_CLASSES):
+        return all(len(p) == len(q) and all(py_same(x, y) for x, y in zip(p, q)) for p, q in zip(a.parts(), b.parts()))
     mod = type(a).__module__.split(".")[0]
     if mod == "pandas":
         import pandas as pd
@@ -604,6 +691,39 @@ def py_same(a, b) -> bool:  # noqa: C901, PLR0911, PLR0912
 
 def _labels_same(i, j) -> bool:
     return len(i) == len(j) and all(py_same(x, y) for x, y in zip(i.tolist(), j.tolist()))
+
+
+def drop_zero_counts(x):
+    """`x` with the zero counts of every Counter removed, at any depth (Counter.__eq__ treats a missing element as a zero count since
+    Python 3.10: Counter(a=0) == Counter()).  Containers are rebuilt only along the paths read by `py_same`."""
+    t = type(x)
+    if t is collections.Counter:
+        return collections.Counter({k: v for k, v in x.items() if not (isinstance(v, (int, float)) and v == 0)})
+    if t in (list, tuple):
+        return t(drop_zero_counts(y) for y in x)
+    if t is collections.deque:
+        return collections.deque((drop_zero_counts(y) for y in x), maxlen=x.maxlen)
+    if t in (dict, collections.OrderedDict):
+        return t((k, drop_zero_counts(v)) for k, v in x.items())
+    if t is collections.defaultdict:
+        d = collections.defaultdict(x.default_factory)
+        for k, v in x.items():
+            d[k] = drop_zero_counts(v)
+        return d
+    if t in FOBJ_CLASSES:
+        h, v = x.parts()
+        return t([drop_zero_counts(y) for y in h], [drop_zero_counts(y) for y in v])
+    if t in (Obj, Obj2):
+        return t(*[drop_zero_counts(y) for y in x.attrs])
+    return x
+
+
+def differ_only_in_zero_counts(a, b) -> bool:
+    """not `py_same`, but the same once zero counts are dropped from every Counter: equal for Counter.__eq__, different mappings"""
+    try:
+        return not py_same(a, b) and py_same(drop_zero_counts(a), drop_zero_counts(b))
+    except Exception:  # noqa: BLE001
+        return False
 
 
 def keq(k1, k2) -> bool:
